@@ -95,7 +95,7 @@ def gen_protocol(rng, firsts):
         i += 1
     for t in ths:
         t.append({"op": "cget"})
-    return {"init": {"a": 7}, "threads": ths, "protocol": True, "dangling": rng.sample(["silent", "partial", "noread", "silent"], 3)}
+    return {"init": {"a": 7}, "threads": ths, "protocol": True, "dangling": rng.sample(["silent", "partial", "noread", "drip"], 3)}
 
 
 def gen_bulk(rng):
